@@ -132,6 +132,11 @@ def write_evidence(pid: str, tier: str, ctx, out, instances, new_viol, known_hit
         'counters': out.counters,
         'technique': spec.technique,
     }
+    st = getattr(out, 'selftest', None)
+    if st is not None:
+        coverage['selftest'] = st
+        coverage['selftest_rule'] = ('mutants = single-instance breaks of this property\'s rules applied to a scratch copy of the '
+                                     'current tree, each must be reported; benign = behaviour-preserving edits, none may be reported')
     if extra:
         coverage.update(extra)
     ev = {
@@ -237,6 +242,12 @@ def main(argv=None) -> int:
         shutil.rmtree(viol_dir, ignore_errors=True)
     else:
         write_evidence(pid, args.tier, ctx, out, instances, new_viol, known_hits, wall)
+    for line in getattr(out, 'selftest_problems', []) or []:
+        print(f'SELFTEST-WARNING property={pid} {line}')
+    st = getattr(out, 'selftest', None)
+    if st and 'mutants' in st:
+        print(f'{pid} self-test: {st["detected"]}/{st["mutants"]} single-instance breaks detected, {st["silent"]}/{st["benign"]} benign twins silent, '
+              f'{len(st["not_applicable"])} not applicable')
     n_pass = sum(1 for i in instances if i.verdict == 'PASS')
     print(f'{pid} [{args.tier}] {len(instances)} rule instances: {n_pass} hold, {len(known_hits)} known findings, '
           f'{len(new_viol)} new violations ({wall:.2f}s)')
